@@ -2,10 +2,12 @@
 
 Tie to /repo:
   (T) tools/extract/waveletpad.py regenerates Gen/WaveletPad.lean from the live
-      PAD_MODES_ODL2PYWT table (and the installed PyWavelets' mode list).
+      PAD_MODES_ODL2PYWT table (and the installed PyWavelets' mode list);
+      tools/extract/recipgrid.py regenerates Gen/RecipGrid.lean (half-complex rmax table of
+      reciprocal_grid, fmin/fmax table of dft_postprocess_data) from the source AST.
   (C) reciprocal_grid / realspace_grid / dft_preprocess_data / dft_postprocess_data,
       DiscreteFourierTransform(Inverse) (numpy and pyfftw), FourierTransform(Inverse) (numpy
-      values, pyfftw status), pywt_pad_mode, precompute_raveled_slices, the crop rule and the
+      and pyfftw values and exception status), pywt_pad_mode, precompute_raveled_slices, the crop rule and the
       adjoint scaling are run on the real code and through lean/Drivers/C18.lean on the same
       inputs; exact comparison where float arithmetic is exact (grids' shapes, (-1)^k factors,
       axis lengths 1/2/4 with integer data, slices), DESIGN §4 tolerance otherwise.
@@ -24,6 +26,7 @@ import numpy as np
 from vf import core
 from vf.core import fs
 from extract import waveletpad as extract_waveletpad
+from extract import recipgrid as extract_recipgrid
 
 RULE = ('grids: n x shift x halfcomplex x stride; factors: n x shift x sign; DFT/FT: ndim x shape '
         '(even/odd) x axes subset x halfcomplex x per-axis shift x sign x dtype x impl x direction; '
@@ -33,6 +36,8 @@ RULE = ('grids: n x shift x halfcomplex x stride; factors: n x shift x sign; DFT
         'level, mode, shape parity) signatures.')
 TRUSTED = ['translator tools/extract/waveletpad.py (PAD_MODES_ODL2PYWT, pywt.Modes.modes -> '
            'Gen/WaveletPad.lean)',
+           'translator tools/extract/recipgrid.py (AST of reciprocal_grid / dft_postprocess_data case '
+           'tables -> Gen/RecipGrid.lean)',
            'numpy.fft / pyFFTW: specification = naive sum over a primitive root of unity '
            '(compared on every case, not verified)',
            'PyWavelets wavedecn/waverecn/ravel_coeffs/unravel_coeffs (parameter of the model)']
@@ -1118,9 +1123,16 @@ def run_padmode(ctx, B):
 # --------------------------------------------------------------------------
 
 def regenerate(ctx):
-    changed = extract_waveletpad.regenerate()
-    return [('extract(PAD_MODES_ODL2PYWT -> Gen/WaveletPad.lean)', True,
-             'regenerated' if changed else 'unchanged')]
+    out = []
+    for name, mod in (('extract(PAD_MODES_ODL2PYWT -> Gen/WaveletPad.lean)', extract_waveletpad),
+                      ('extract(reciprocal_grid, dft_postprocess_data tables -> Gen/RecipGrid.lean)',
+                       extract_recipgrid)):
+        try:
+            changed = mod.regenerate()
+            out.append((name, True, 'regenerated' if changed else 'unchanged'))
+        except Exception as e:  # grammar no longer matches the source: broken obligation
+            out.append((name, False, '{}: {}'.format(type(e).__name__, e)))
+    return out
 
 
 def run(ctx):
